@@ -309,7 +309,7 @@ def run_case(w):
         if ok:
             r.expect_close('peaks.object', sub, out, want_pk, rtol=1e-12, atol=1e-300)
     if n <= 5 and nz:
-        for scale in (1e-9, 1e9):
+        for scale in (1e-9, 1e9, 1e-160, 1e150):
             sub = {'w': w, 'dt': 0.01, 'scale': scale}
             vref, dref = ref_series(w, 0.01, True)
             ok, out = r.call('scaling', sub, displacements.calc_velo_and_disp_from_accel_arr, np.array(w, dtype=float) * scale, 0.01)
